@@ -59,7 +59,7 @@ theorem runDirs_append (o : Oracle) (p : Path) (ds : List String) (st : St) :
   | nil => simp [Impl.runDirs]
   | cons d inner ih =>
     simp only [Impl.runDirs]
-    cases o.dir (pathStr p) d with
+    cases o.dir p d with
     | missing => simp
     | pass =>
       simp only
@@ -77,7 +77,7 @@ theorem runDirs_noErrs (o : Oracle) (p : Path) (ds : List String) :
   | cons d inner ih =>
     intro st h
     simp only [Impl.runDirs]
-    cases o.dir (pathStr p) d with
+    cases o.dir p d with
     | missing => simpa using h
     | pass => exact ih _ (by simp [St.invoked, h])
     | err m => simp [St.invoked, h]
@@ -507,7 +507,7 @@ theorem field_rel (o : Oracle) (fi : FInfo) : ∀ (sh : Shape) (p : Path) (st : 
       exact relV_mustNotBeNull sh.nn p st e hne hc
     | reached =>
       simp only []
-      cases o.res (pathStr p) with
+      cases o.res p with
       | missing =>
         simp only []
         rw [St.unlogged_eq, St.append_assoc]
